@@ -24,14 +24,18 @@ var c16Modes = []string{"", "verify", "verify_log", "none"}
 // the last two: genuinely signed by the issuing CA, but the CRL's authority key identifier cannot be evaluated (an empty
 // SEQUENCE; only authorityCertIssuer without a serial number). Whether such a CRL "fails verification" is the
 // implementation's call, so 'verify' is not judged for them; verify_log and none accept every parseable CRL.
-var c16Signers = []string{"resolvable", "unknown", "wrong-signature", "unevaluable-aki-empty", "unevaluable-aki-issuer-only"}
+// "resolvable-no-aki": signed by the issuing CA, no authority key identifier - the signer is found by name, and a
+// certificate of the re-keyed CA (same name, other key) is configured as trusted signer in front of everything else.
+var c16Signers = []string{"resolvable", "unknown", "wrong-signature", "unevaluable-aki-empty", "unevaluable-aki-issuer-only", "resolvable-no-aki"}
 var c16Paths = []string{"provision-crl_file", "provision-crl_url", "first-cdp-fetch-actively", "first-cdp-fetch-background", "periodic-refresh", "refresh-after-restart",
 	// a first run under signature_validation_mode none takes the configured CRL in; the process restarts on the same
 	// work_dir with the mode of the cell (the policy of the current configuration decides, not what the disk remembers)
 	"reprovision-crl_file-after-run-under-none", "reprovision-crl_url-after-run-under-none",
 	// the file named by trusted_signature_certs_files is replaced by another CA's certificate between two runs of the
 	// same process: the second run trusts what the file holds now
-	"reprovision-crl_url-after-trusted-cert-file-replaced"}
+	"reprovision-crl_url-after-trusted-cert-file-replaced",
+	// the trusted_signature_certs_files option is removed between two runs: the second run trusts nobody beyond the chains
+	"reprovision-crl_url-after-trusted-cert-removed", "reprovision-crl_file-after-trusted-cert-removed"}
 
 type c16Cell struct {
 	Mode, Signer, Path string
@@ -87,6 +91,10 @@ func (c *c16Cast) doc(signer string, v int) []byte {
 		s := world.SimpleCRL(c.ca, int64(v), serials...)
 		s.BadSig = true
 		return s.DER()
+	case "resolvable-no-aki":
+		s := world.SimpleCRL(c.ca, int64(v), serials...)
+		s.Exts = []pkix.Extension{world.CRLNumberExt(int64(v))}
+		return s.DER()
 	case "unevaluable-aki-empty":
 		s := world.SimpleCRL(c.ca, int64(v), serials...)
 		s.Exts = []pkix.Extension{world.AKIExt(nil, nil, nil), world.CRLNumberExt(int64(v))}
@@ -140,7 +148,7 @@ func (c *c16Cast) observe(w *TW, cdp bool) string {
 func (c *c16Cast) runCell(cell c16Cell) (obs c16Obs, want []string) {
 	accept := func(signer string) bool { // does the mode accept a CRL of this signer variant?
 		if cell.Mode == "" || cell.Mode == "verify" {
-			return signer == "resolvable"
+			return signer == "resolvable" || signer == "resolvable-no-aki"
 		}
 		return true
 	}
@@ -168,6 +176,15 @@ func (c *c16Cast) runCell(cell c16Cell) (obs c16Obs, want []string) {
 			case "reprovision-crl_url-after-run-under-none":
 				cfg.CRLUrls = []string{c16URL}
 				cfg.TrustedSignatureCertsFiles = []string{WritePEM(filesDir, "ca.pem", c.ca.Cert)}
+			case "reprovision-crl_url-after-trusted-cert-removed", "reprovision-crl_file-after-trusted-cert-removed":
+				if strings.Contains(cell.Path, "crl_url") {
+					cfg.CRLUrls = []string{c16URL}
+				} else {
+					cfg.CRLFiles = []string{crlFile}
+				}
+				if trustedNow != nil {
+					cfg.TrustedSignatureCertsFiles = []string{WritePEM(filesDir, "ca.pem", trustedNow.Cert)}
+				}
 			case "reprovision-crl_url-after-trusted-cert-file-replaced":
 				cfg.CRLUrls = []string{c16URL}
 				// (size and modification time of the file are the same before and after the replacement)
@@ -184,6 +201,10 @@ func (c *c16Cast) runCell(cell c16Cell) (obs c16Obs, want []string) {
 			if cell.ExtraTrusted {
 				// a trusted signer which has nothing to do with this CRL changes nothing about the policy
 				cfg.TrustedSignatureCertsFiles = append([]string{WritePEM(filesDir, "unrelated.pem", c.p.CARSA.Cert)}, cfg.TrustedSignatureCertsFiles...)
+			}
+			if cell.Signer == "resolvable-no-aki" {
+				// the re-keyed CA's certificate (same name, other key) comes first among the trusted signers
+				cfg.TrustedSignatureCertsFiles = append([]string{WritePEM(filesDir, "rekeyed.pem", c.p.Sibling.Cert)}, cfg.TrustedSignatureCertsFiles...)
 			}
 			return cfg
 		}
@@ -213,6 +234,37 @@ func (c *c16Cast) runCell(cell c16Cell) (obs c16Obs, want []string) {
 		expect := func() { want = append(want, fmt.Sprintf("v%d", inForce)) }
 		look := func() { obs.Probes = append(obs.Probes, c.observe(w, cdp)) }
 		switch cell.Path {
+		case "reprovision-crl_url-after-trusted-cert-removed", "reprovision-crl_file-after-trusted-cert-removed":
+			if cell.Signer != "resolvable" || cell.ExtraTrusted {
+				want, obs.Probes = nil, nil
+				return
+			}
+			publish("resolvable", 1)
+			if err := start(); err != nil {
+				obs.ProvisionErr = "first run: " + err.Error()
+				want = append(want, "provision-must-succeed")
+				return
+			}
+			look()
+			inForce = 1
+			expect()
+			publish("resolvable", 2)
+			trustedNow = nil // nobody is configured as trusted signer any more: the CRL's signer is unknown to this run
+			if err := restart(); err != nil {
+				obs.ProvisionErr = err.Error()
+				if accept("unknown") {
+					want = append(want, "provision-must-succeed")
+				}
+				return
+			}
+			inForce = 0
+			if accept("unknown") {
+				inForce = 2
+			}
+			look()
+			expect()
+			w.Cleanup()
+			return
 		case "reprovision-crl_url-after-trusted-cert-file-replaced":
 			if cell.Signer != "resolvable" {
 				want, obs.Probes = nil, nil // the other signer kinds are not resolvable before the replacement either
